@@ -146,6 +146,24 @@ pub fn exec(cx: &mut Ctx, h: &Hist) {
             Op::Update(_, n) => {
                 let piece = drng.bytes(*n);
                 cx.log.class(&format!("{}/update/{}/{}", id.fam_name(), fill_class(fill, bs), piece_class(*n, fill % bs, bs)));
+                if (*n + opi) % 4 == 3 {
+                    // by-value Update::chain
+                    let (hh, mut sh) = inst[idx].take().unwrap();
+                    let pc = piece.clone();
+                    match guarded(move || hh.chain_box(&pc)) {
+                        Ok(nh) => {
+                            sh.extend_from_slice(&piece);
+                            inst[idx] = Some((nh, sh));
+                        }
+                        Err(p) => {
+                            cx.log.panic_violation_ctx(&format!("{}|op=chain", sigp), &format!("op #{}", opi), &p);
+                            break;
+                        }
+                    }
+                    cx.log.event("chain_calls", 1);
+                    cx.log.event("bytes_fed", *n as u64);
+                    continue;
+                }
                 let e = inst[idx].as_mut().unwrap();
                 if let Err(p) = guarded(|| e.0.update(&piece)) {
                     cx.log.panic_violation_ctx(&format!("{}|op=update", sigp), &format!("op #{}", opi), &p);
@@ -180,7 +198,15 @@ pub fn exec(cx: &mut Ctx, h: &Hist) {
             Op::FinalizeReset(_) => {
                 cx.log.class(&format!("{}/finalize_reset/{}", id.fam_name(), fill_class(fill, bs)));
                 let e = inst[idx].as_mut().unwrap();
-                let got = match guarded(|| e.0.finalize_reset()) {
+                // three routes to "finalize and start over": FixedOutput::finalize_fixed_reset (in
+                // place), DynDigest::finalize_reset (object-safe trait), Digest::finalize_reset (clone)
+                let flavour = opi % 3;
+                cx.log.event(["finalize_fixed_reset", "dyn_finalize_reset", "digest_finalize_reset"][flavour], 1);
+                let got = match guarded(|| match flavour {
+                    0 => e.0.finalize_reset(),
+                    1 => e.0.dyn_finalize_reset(),
+                    _ => e.0.digest_finalize_reset(),
+                }) {
                     Ok(g) => g,
                     Err(p) => {
                         cx.log.panic_violation(&format!("{}|op=finalize_reset", sigp), &p);
